@@ -17,7 +17,7 @@ func init() {
 		run: runC03,
 		explanation: "Decided (structural, for every query sequence and cache capacity): " +
 			"C03.keyhash — in every cacheKey method of an expression type with operands, the operands' keys flow only through order-preserving encoders (append, binary Put/AppendUint64, helper parameters) into a recognised hash (xxhash), never through arithmetic/bitwise operators or math/bits, the method returns that hash, and a per-type constant tag reaches the same hash input with tags pairwise distinct; " +
-			"C03.keyoperands — the list of keys an n-ary operator hashes is exactly one cacheKey() per operand in operand order (no operand skipped, replaced or expanded into its own operands); " +
+			"C03.keyoperands — the list of keys an n-ary operator hashes is exactly one cacheKey() per operand in operand order (no operand skipped, replaced or expanded into its own operands; the collecting loop may live in a helper, also a generic map helper mapSlice(xs, f) whose function argument — method expression, literal or named wrapper — is resolved and must return x.cacheKey() of its parameter; a re-sliced operand list is not the operand list); " +
 			"C03.keypair — each eval looks up and stores under its own cacheKey(), stores exactly the bitmap it returns, and returns the cached bitmap itself on a hit; " +
 			"C03.pure — in everything reachable from Execute/GetSchema every call of a mutating roaring.Bitmap method has a receiver created in that function and not yet handed to Cache.Put, and every roaring package function called is in the reviewed non-mutating table; " +
 			"C03.storeimm — fields of Index and of the column getters are written only by the open/option/close functions; " +
@@ -44,6 +44,9 @@ var encoders = map[string]bool{
 }
 
 // taintRun is a forward, flow-insensitive, interprocedural (module functions only) propagation of a set of values.
+// Calls of a function-typed parameter of a followed helper (`f(x)` in mapSlice(xs, f)) are bound to the functions
+// passed for it at the helper's call sites (calleesOf), so keys produced in the thunk of `Expression.cacheKey` or in
+// a literal come back through the map helper's result.
 type taintRun struct {
 	c        *Ctx
 	tainted  map[ssa.Value]bool
@@ -221,10 +224,13 @@ func (t *taintRun) run(start *ssa.Function) {
 						}
 						return
 					}
+					targets, known := t.calleesOf(x)
 					if !anyT {
-						// results of module helpers that return tainted values
-						if fn := calleeFunc(cc); fn != nil && t.funcs[fn] && t.returnsTainted(fn) && mark(x) {
-							changed = true
+						// results of module helpers (or of the functions passed for a function parameter) that return tainted values
+						for _, fn := range targets {
+							if t.funcs[fn] && t.returnsTainted(fn) && mark(x) {
+								changed = true
+							}
 						}
 						return
 					}
@@ -265,20 +271,32 @@ func (t *taintRun) run(start *ssa.Function) {
 						}
 						return
 					}
-					if fn := calleeFunc(cc); fn != nil && t.c.w.inModule(fn) && fn.Blocks != nil {
-						if !t.funcs[fn] {
-							t.funcs[fn] = true
-							changed = true
+					followed := known && len(targets) > 0
+					for _, fn := range targets {
+						if !t.c.w.inModule(fn) || fn.Blocks == nil {
+							followed = false
 						}
-						for k, a := range cc.Args {
-							if t.isT(a) && k < len(fn.Params) && mark(fn.Params[k]) {
+					}
+					if followed {
+						hashedAll := true
+						for _, fn := range targets {
+							if !t.funcs[fn] {
+								t.funcs[fn] = true
 								changed = true
 							}
+							for k, a := range cc.Args {
+								if t.isT(a) && k < len(fn.Params) && mark(fn.Params[k]) {
+									changed = true
+								}
+							}
+							if t.returnsTainted(fn) && mark(x) {
+								changed = true
+							}
+							if !t.returnsHashed(fn) {
+								hashedAll = false
+							}
 						}
-						if t.returnsTainted(fn) && mark(x) {
-							changed = true
-						}
-						if t.returnsHashed(fn) && !t.hashed[x] {
+						if hashedAll && !t.hashed[x] {
 							t.hashed[x] = true
 							changed = true
 						}
@@ -319,6 +337,46 @@ func (t *taintRun) run(start *ssa.Function) {
 			})
 		}
 	}
+}
+
+// calleesOf: the functions a call may run, as far as they are known statically — the static callee, or, for a call of a
+// function-typed parameter of a followed helper (`f(x)` in a map helper mapSlice(xs, f)), the functions passed for that
+// parameter at the helper's call sites in the followed functions (method expressions resolve to their thunk, literals
+// to their body). known is false if some call site passes a function value that cannot be resolved.
+func (t *taintRun) calleesOf(call *ssa.Call) (out []*ssa.Function, known bool) {
+	cc := &call.Call
+	if cc.IsInvoke() {
+		return nil, false
+	}
+	if fn := calleeFunc(cc); fn != nil {
+		return []*ssa.Function{fn}, true
+	}
+	p, ok := peel(cc.Value).(*ssa.Parameter)
+	if !ok {
+		return nil, false
+	}
+	h := p.Parent()
+	known = true
+	seen := map[*ssa.Function]bool{}
+	for f := range t.funcs {
+		allInstrs(f, func(i ssa.Instruction) {
+			site, isCall := i.(*ssa.Call)
+			if !isCall || calleeFunc(&site.Call) != h {
+				return
+			}
+			g := funcValueOf(argFor(site, h, p), nil)
+			if g == nil {
+				known = false
+				return
+			}
+			if !seen[g] {
+				seen[g] = true
+				out = append(out, g)
+			}
+		})
+	}
+	sort.Slice(out, func(i, j int) bool { return out[i].String() < out[j].String() })
+	return out, known
 }
 
 func (t *taintRun) returnsTainted(fn *ssa.Function) bool {
@@ -413,7 +471,10 @@ func c03Keyhash(c *Ctx) {
 			continue
 		}
 		site := c.w.pos(fn.Pos())
-		helpers := c.scope(fn, 2)
+		// the helpers the keys travel through, including instances of generic helpers and the thunks of method expressions
+		// (combineCacheKeys(tag, mapSlice(e.Exprs, Expression.cacheKey)...): the operands' cacheKey is invoked in the thunk,
+		// called in the instance of mapSlice, whose result carries the keys back)
+		helpers := c.scopeSyn(fn, 2)
 		var srcs []*ssa.Call
 		for _, h := range helpers {
 			srcs = append(srcs, childKeyCalls(c, h)...)
@@ -729,11 +790,13 @@ func cacheOwnerRule(c *Ctx, rule string) {
 	if n == 0 {
 		c.r.ok(rule, "module", "no non-test code installs a cache")
 	}
+	cacheOptionKept(c, rule, fr)
 }
 
 // c03KeyOperands: the key of an n-ary operator is computed from exactly one key per operand, in operand order: the
 // []uint64 handed to the hashing step is built by collecting x.cacheKey() for every element x of the operand list (append
-// loop or make+index, directly or in a helper), with no element skipped, replaced or expanded. Splicing the keys of a
+// loop or make+index, directly or in a helper — also a map helper mapSlice(xs, f) that makes the per-element call
+// through its function parameter, see elementLoopF), with no element skipped, replaced or expanded. Splicing the keys of a
 // nested node's operands into the parent's list (to exploit associativity) makes AND(x, AND()) share a key with AND(x)
 // although one is empty and the other is x.
 func c03KeyOperands(c *Ctx) {
